@@ -635,7 +635,18 @@ fn exec_and_check(chk: &Chk, rep: &mut Report, db: &Db, model: &Model, sql: &str
     true
 }
 
+/// A panic of the code under test while a statement of the history is being rendered is a violation
+/// (every statement of these histories is one SQLite supports), not a harness error.
 pub fn run_history(ctx: &Ctx, rep: &mut Report, n: u64, rng: &mut Rng, single: Option<Tbl>) {
+    let r = std::panic::catch_unwind(std::panic::AssertUnwindSafe(|| run_history_inner(ctx, rep, n, rng, single)));
+    if let Err(p) = r {
+        let msg = p.downcast_ref::<String>().cloned().or_else(|| p.downcast_ref::<&str>().map(|s| s.to_string())).unwrap_or_else(|| "panic".into());
+        let sig: String = msg.chars().take(80).collect();
+        rep.violation("R.panic", "sqlite", format!("history: {sig}"), json!({"panic": msg}), ctx.shard, n);
+    }
+}
+
+fn run_history_inner(ctx: &Ctx, rep: &mut Report, n: u64, rng: &mut Rng, single: Option<Tbl>) {
     rep.eval();
     let chk = Chk { ctx, n };
     let db = Db::memory();
